@@ -532,6 +532,9 @@ class Sym:
                     return f_not(x.f)
                 if isinstance(x, Opq) and x.kind == "find" and y.value == -1:
                     return atom(f"notfound({x.key})")
+                if isinstance(x, Opq) and x.kind == "len" and x.meta and isinstance(x.meta[0], Opq) and x.meta[0].kind == "split" and y.value in (1, 2) and not isinstance(y.value, bool):
+                    one = atom(f"notfound({x.meta[0].key})")
+                    return one if y.value == 1 else f_not(one)
                 if isinstance(x, Opq) and x.kind == "len" and x.meta and y.value == 0 and not isinstance(y.value, bool):
                     return f_not(self.truth(x.meta[0], st))
                 if isinstance(x, Coll) and isinstance(y.value, (list, tuple)) and not y.value:
@@ -827,7 +830,14 @@ class Sym:
         for op, rn in zip(e.ops, e.comparators):
             right = self.eval(rn, st, ctx)
             deps |= self.deps(right, st)
-            parts.append(self.compare(left, op, right, st))
+            if isinstance(op, (ast.In, ast.NotIn)) and isinstance(left, Const) and isinstance(left.value, str) and left.value and isinstance(right, Opq):
+                # substring test: a search of the text for the needle
+                res = Opq(f"{left.value!r} in {right.key}", deps, kind="contains", meta=(self.deps(left, st), self.deps(right, st)))
+                self.emit("call", "in", [left], right, st, ctx, e, ("b", "str", ()), res)
+                f = atom(f"bool({res.key})")
+                parts.append(f if isinstance(op, ast.In) else f_not(f))
+            else:
+                parts.append(self.compare(left, op, right, st))
             left = right
         return BoolV(f_and(parts), deps)
 
@@ -852,6 +862,12 @@ class Sym:
         for x, y, o in ((a, b, op), (b, a, _flip(op))):
             if isinstance(y, Const) and isinstance(y.value, int) and not isinstance(y.value, bool):
                 n = y.value
+                if isinstance(x, Opq) and x.kind == "len" and x.meta and isinstance(x.meta[0], Opq) and x.meta[0].kind == "split":
+                    one = atom(f"notfound({x.meta[0].key})")
+                    if (isinstance(o, ast.Lt) and n == 2) or (isinstance(o, ast.LtE) and n == 1):
+                        return one
+                    if (isinstance(o, ast.GtE) and n == 2) or (isinstance(o, ast.Gt) and n == 1):
+                        return f_not(one)
                 if isinstance(x, Opq) and x.kind == "len" and x.meta:
                     t = self.truth(x.meta[0], st)
                     if (isinstance(o, ast.Gt) and n == 0) or (isinstance(o, ast.GtE) and n == 1):
@@ -1522,6 +1538,29 @@ class Sym:
             res = Opq(f"{key(base)}.{attr}({key(args[0])})", bdeps, kind="search", meta=(self.deps(base, st), self.deps(args[0], st)))
             self.emit("call", "re." + attr, args, base, st, ctx, e, t, res)
             return res
+        not_repo = not self.classes_of(base, e.func.value, ctx)
+        if attr in ("partition", "rpartition") and len(args) == 1 and (is_str or not_repo) and not isinstance(base, (Coll, Ref)):
+            # (head, sep, tail); sep == "" iff the separator does not occur
+            k = f"{key(base)}.{attr}({key(args[0])})"
+            meta = (self.deps(args[0], st), self.deps(base, st))
+            head = Opq(f"{k}[0]", bdeps, kind="str")
+            sep = Opq(f"{k}[1]", bdeps, kind="partsep", meta=meta)
+            tail = Opq(f"{k}[2]", bdeps, kind="str")
+            b = lambda v: self.truth(v, st)  # noqa: E731
+            whole, rest, gone = (head, tail, tail) if attr == "partition" else (tail, head, head)
+            absent = f_not(b(sep))
+            st.path += [
+                f_or([f_not(absent), f_not(b(gone))]),  # absent -> the part beyond the separator is empty
+                f_or([f_not(absent), f_and([f_or([f_not(b(whole)), b(base)]), f_or([b(whole), f_not(b(base))])])]),  # absent -> the other part is the whole string
+                f_or([b(base), f_and([f_not(b(head)), f_not(b(sep)), f_not(b(tail))])]),  # partition of an empty string
+            ]
+            self.emit("call", attr, args, base, st, ctx, e, t, sep)
+            return self.new_coll(st, "tuple", [(head, TRUE), (sep, TRUE), (tail, TRUE)])
+        if attr in ("split", "rsplit") and len(args) == 2 and isinstance(args[1], Const) and args[1].value == 1 and (is_str or not_repo) and not isinstance(base, (Coll, Ref)):
+            # one or two parts; one part iff the separator does not occur
+            res = Opq(f"{key(base)}.{attr}({key(args[0])}, 1)", bdeps, kind="split", meta=(self.deps(args[0], st), self.deps(base, st)))
+            self.emit("call", attr, args, base, st, ctx, e, t, res)
+            return res
         if is_str and attr in ("startswith", "endswith", "isidentifier", "isdigit", "isalpha"):
             return BoolV(atom(f"{key(base)}.{attr}({', '.join(key(a) for a in args)})"), bdeps)
         if is_str and attr in ("strip", "lstrip", "rstrip", "lower", "upper", "replace", "format", "join", "removeprefix", "removesuffix", "split", "rsplit", "partition", "rpartition", "splitlines", "title", "casefold", "encode"):
@@ -1610,6 +1649,8 @@ class Sym:
                 for t, (x, _c) in zip(target.elts, items):
                     self.assign(t, x, st, ctx)
             else:
+                if isinstance(v, Opq) and v.kind == "split" and len(target.elts) == 2 and isinstance(getattr(target, "_parent", None), (ast.Assign, ast.AnnAssign)):
+                    self.emit("call", "split-unpack", [], v, st, ctx, target, ("b", "list", ()), Opq(f"unpack({v.key})", v.deps, kind="index", meta=v.meta))
                 for i, t in enumerate(target.elts):
                     meta = v.meta if isinstance(v, Opq) and v.kind == "elem" else ()
                     self.assign(t.value if isinstance(t, ast.Starred) else t, Opq(f"{key(v)}[{i}]", self.deps(v, st), kind="elem" if meta else "item", meta=meta), st, ctx)
